@@ -8,14 +8,11 @@
   solutions; applying a solution overwrites the counters of its tokens, so they join `W`.  Once every token is
   written, the rest of the stage and the reconstructor are functions of what the relation keeps.
 -/
-import PasfmtModel.Model.PipelineFull
+import PasfmtModel.Model.LayoutCheck
 import PasfmtModel.Proofs.WrapStageProps
 import PasfmtModel.Proofs.PipelineFullProps
 
 namespace Pasfmt
-
-/-- the blank-line class of a line-break counter: what `reconstruct_solution` keeps at the first token of a line -/
-def nlc (n : Nat) : Nat := min (max n 1) 2
 
 theorem nlc_idem (n : Nat) : nlc (nlc n) = nlc n := by unfold nlc; omega
 
@@ -155,24 +152,6 @@ theorem setFmt_relW {W : Nat → Prop} {ft ft' ft1 : FT} {i : Nat} {first : Bool
       · exact b w
       · exact absurd w.symm hij
   · simp at h1
-
-mutual
-/-- the tokens whose counters `applySol` overwrites -/
-def solTokens (lines : List Line) : Sol → Nat → List Nat
-  | .mk _ _ decs, lineIdx =>
-    match lines[lineIdx]? with
-    | none => []
-    | some l => decsTokens lines l.tokens 0 decs
-
-def decsTokens (lines : List Line) (toks : List Nat) (i : Nat) : List (Dec × List (Nat × Sol)) → List Nat
-  | [] => []
-  | (_, children) :: rest =>
-    (match toks[i]? with | some t => [t] | none => []) ++ childrenTokens lines children ++ decsTokens lines toks (i + 1) rest
-
-def childrenTokens (lines : List Line) : List (Nat × Sol) → List Nat
-  | [] => []
-  | (li, s) :: rest => solTokens lines s li ++ childrenTokens lines rest
-end
 
 mutual
 theorem applySol_relW (lines : List Line) (W : Nat → Prop) (ft ft' ft1 : FT) (s : Sol) (li : Nat)
@@ -469,10 +448,6 @@ theorem reconGo_relT (S : Settings) (mb : Bool) (ft ft' : FT) (h : RelT ft ft') 
       rw [gapOf_rel S t t' mb lr hf, lr.content, lr.kind, ih _ r' hr]
 
 /-! ### the whole stage -/
-
-/-- every token index below `n` is written by the eof rule / ignored (`W0`) or by a first-phase solution -/
-def allWritten (lines : List Line) (W0 : Nat → Bool) (n : Nat) (sols : List (Nat × Nat × Sol)) : Bool :=
-  (List.range n).all fun j => W0 j || sols.any fun x => x.1 == 0 && (solTokens lines x.2.2 x.2.1).contains j
 
 theorem wrapStageFull_layout (cfg : Config) (lines : List Line) (W0 : Nat → Bool) (ft ft' ftz : FT)
     (sols : List (Nat × Nat × Sol))
